@@ -71,7 +71,11 @@ def history_with_flows(rng, key, n):
             s, d, sport, dport = rng.choice(flows)
             fr.append(net.frame_tcp(s, d, sport, dport, 9, rng.getrandbits(32), 0x18, b" more\r\n\r\n"))
         elif k == 6:
-            fr.append(net.frame_tcp(s, d, sport, dport, 5, 6, rng.choice([0x11, 0x04, 0x10, 0x14, 0x01])))
+            if flows and rng.random() < 0.5:           # control segments on a flow that holds state, too
+                s, d, sport, dport = rng.choice(flows)
+            ck = net.cookie(key, s, d, sport, dport)
+            fr.append(net.frame_tcp(s, d, sport, dport, 5, rng.choice([6, (ck + 1) & 0xFFFFFFFF]),
+                                    rng.choice([0x11, 0x04, 0x10, 0x14, 0x01, 0x02, 0x12]), rng.choice([b"", b"", b"payload"])))
         else:
             fr += gens.l2l3_noise(rng, 1)
     return fr, flows
@@ -85,6 +89,30 @@ def generate(tier, rng):
         h, flows = history_with_flows(rng, key, n)
         for f in probe_frames(rng, key, flows):
             yield Script(cfg, h + [f], "history+probe")
+    p1, p2 = pressure_script(rng, (1, 2))
+    yield p1
+    yield p2
+
+
+def pressure_script(rng, key):
+    """Flow A leaves the first half of a request in its control block; then 66 000 OTHER flows each get one data segment
+    accepted (valid cookie); then A sends the second half. Whatever the table does under that load (cap, eviction,
+    flush, refusal of new entries), A's answer must be the one it gets without the other flows. Implementation against
+    itself only (the extracted model's association list is quadratic at this size)."""
+    s, d = gens.PEER4, gens.SELF4
+    half1, half2 = b"GET /index.html HT", b"TP/1.1\r\nHost: a\r\n\r\n"
+    a = gens.handshake(key, s, d, 1025, 80, [half1])
+    cka = net.cookie(key, s, d, 1025, 80)
+    flood = []
+    for i in range(66000):
+        src = "11.%d.%d.%d" % ((i >> 16) & 255, (i >> 8) & 255, i & 255)
+        ck = net.cookie(key, src, d, 2000 + (i & 0x3fff), 8080)
+        flood.append(net.frame_tcp(src, d, 2000 + (i & 0x3fff), 8080, 1, (ck + 1) & 0xFFFFFFFF, 0x18, b"x"))
+    probe = net.frame_tcp(s, d, 1025, 80, 1001 + len(half1), (cka + 1) & 0xFFFFFFFF, 0x18, half2)
+    # a NEW multi-segment flow after the flood as well (its state must be kept like any other flow's)
+    b = gens.handshake(key, s, d, 1026, 80, [half1, half2])
+    return Script(Cfg(key=key), a + flood + b[:-1] + [probe], "table-pressure|%d" % len(a)), \
+        Script(Cfg(key=key), a + flood + b, "table-pressure-new-flow|%d" % 0)
 
 
 def nontrivial(script):
@@ -125,6 +153,22 @@ def own_bits(scripts):
 def evaluate_custom(scripts, drivers):
     issues = []
     stats = {"frames": 0, "replies": 0, "silence": 0, "panics": 0, "monitor_evals": 0, "pairs": 0, "collision_cases": 0}
+    pressure = [s for s in scripts if s.tag.startswith("table-pressure")]
+    scripts = [s for s in scripts if not s.tag.startswith("table-pressure")]
+    for s in pressure:
+        k = int(s.tag.split("|")[1])
+        # restricted history: the probe's own flow only (for the new-flow variant: its handshake and two halves)
+        keep = s.frames[:k] + [s.frames[-1]] if k else s.frames[-3:]
+        for dname, driver in drivers:
+            full = runner.run_impl([s], driver)[0]
+            res = runner.run_impl([Script(s.cfg, keep, s.tag + " [restricted]")], driver)[0]
+            stats["frames"] += len(s.frames) + len(keep)
+            stats["pairs"] += 1
+            stats["monitor_evals"] += 1
+            if mask(full[-1]) != mask(res[-1]):
+                issues.append({"kind": "monitor", "script": s, "frame": len(s.frames) - 1, "driver": dname,
+                               "monitor": "C08-metamorphic", "impl": full[-1].short()[:300], "model": res[-1].short()[:300],
+                               "class": None, "noshrink": True})
     bits = own_bits(scripts)
     restricted = []
     for s, (own, col) in zip(scripts, bits):
